@@ -78,6 +78,11 @@ func InitQCTree(startHeight int64, ledger cctx.LedgerRely, log logs.Logger) *cha
 	tip := ledger.GetTipBlock()
 	// 当前为初始状态
 	if tip.GetHeight() <= startHeight {
+		// start高度的区块已在账本中时(在该高度重启), 它不会再经ProcessConfirmBlock进入Tree, 需直接挂在genesisQC下,
+		// 否则其后所有区块的父节点都不在Tree中, 只能永远留在孤儿数组里
+		if tip.GetHeight() == startHeight {
+			gNode.Sons = append(gNode.Sons, makeTreeNode(ledger, tip.GetHeight()))
+		}
 		return &chainedBft.QCPendingTree{
 			Genesis:    gNode,
 			Root:       gNode,
